@@ -244,14 +244,17 @@ example : (parseDoc { exCfg false 100 with blockChain := [.hr], inlineChain := [
 /-- **the split tab**: `"-    a\n\t\tb"` (item content at column 5, the continuation line two tabs =
     column 8: three columns remain of the second tab).  The paragraph's content is `"a\n   b"` with
     the table `[(0,5),(2,9),(5,9)]`: the three virtual spaces and the `b` are all mapped to byte 9;
-    not `MapOK` (`MonoMap` fails at the virtual entry, key 5 is not behind a line feed), and the
-    position strictly inside the virtual spaces is translated beyond the 10-byte source
-    (`tr 4 = 11`).  The tree is nevertheless in order — text `(5,6)`, softbreak `(6,9)`, text
-    `(9,10)` —: the newline rule skips the leading blanks of the continuation line, no node boundary
-    ever falls strictly inside them. -/
+    not `MapOK` (`MonoMap` fails at the virtual entry, key 5 is not behind a line feed).  Before the
+    `fix:` "positions inside the virtual spaces of a split tab" the position strictly inside the
+    virtual spaces was translated beyond the 10-byte source (`getSourcePosForRaw … 4 = 11`); the
+    repaired `get_source_pos_for` clamps it to the tab's byte (`tr 4 = 9`, `C05.translate_le_next`).
+    The tree is in order — text `(5,6)`, softbreak `(6,9)`, text `(9,10)` — either way: the newline
+    rule skips the leading blanks of the continuation line, no node boundary falls strictly inside
+    them here (it does inside a code span: Props/C05Rest.lean). -/
 example : (Block.parseBlocks (exCfg false 100).blockCfg "-    a\n\t\tb".toList).toOption.map (fun r => inlOf r.1) =
     some [("a\n   b".toList, [(0, 5), (2, 9), (5, 9)])] := by decide +kernel
-example : InlineOps.getSourcePosFor [(0, 5), (2, 9), (5, 9)] 4 = .ok 11 ∧
+example : InlineOps.getSourcePosForRaw [(0, 5), (2, 9), (5, 9)] 4 = .ok 11 ∧
+    InlineOps.getSourcePosFor [(0, 5), (2, 9), (5, 9)] 4 = .ok 9 ∧
     InlineOps.getSourcePosFor [(0, 5), (2, 9), (5, 9)] 5 = .ok 9 := by decide +kernel
 example : (parseDoc (exCfg false 100) "-    a\n\t\tb".toList).toOption.map (flatN 0) =
     some [(0, 0, 10), (1, 0, 10), (2, 0, 10), (3, 5, 6), (3, 6, 9), (3, 9, 10)] := by decide +kernel
@@ -293,6 +296,13 @@ OPEN: what is still missing for `doc_ranges_ok` (`RangesOk` of Props/C05Doc.lean
       (or at the start of the content, which `trim_src` skips) — `KeysLFV` + the content shape
       `joinLines` of `Lines.get_lines_faithful`; then `C05.translate_mono_virtual` replaces
       `translate_mono` throughout Lemmas/InlineRanges*.lean.  With it `pinl_of_pmapF` loses `htab`.
+      UPDATE (`fix:` "positions inside the virtual spaces of a split tab", `get_source_pos_for`
+      clamped): the invariant FAILS for the code-span rule (a padded span's stripped interior may end
+      strictly inside a virtual segment: `exTab` of Props/C05Rest.lean, where before the fix the range
+      left the source), but it is no longer needed for order and enclosure: `C05.translate_mono_all`
+      is monotone at EVERY position and `C05I.seg_upToAll` bounds every translated position; it is
+      still needed for `Inline.translate_expand` / `translate_same_line` (non-empty ranges, text
+      clause).  See the OPEN block of Props/C05Rest.lean.
    B. (character boundaries) `Lines.onBoundary src a / b` at inline nodes: every range end is
       `tr pos` for a character boundary `pos` of the content (`Inline.Good.bpos`-style invariant, to
       be added to `RInv`), and `tr` maps boundaries of the content to boundaries of the source:
